@@ -432,7 +432,7 @@ class Presence:
                 inner = pat_is_some(cond['pat'])
                 o = self.opt(cond['init'], pd)
                 if inner is not None and isinstance(o, frozenset):
-                    pd_then = frozenset(o)
+                    pd_then = frozenset(pd | o)
                 self.bind_pat(cond['pat'], cond['init'], pd)
             else:
                 pd_then, pd_else = self.refine(cond, pd)
@@ -526,6 +526,16 @@ class Presence:
                     continue
                 if 'els' in s:
                     inner = pat_is_some(s['pat'])
+                    i1 = strip(init)
+                    if s['pat']['k'] == 'ptuple' and i1.get('k') == 'tuple':
+                        elems = [self.opt(x, pd) for x in i1['es']]
+                        r = self.expr_result(s['els'], pd)
+                        if r not in ('RECORDED',) and not diverges(s['els']):
+                            self.results.append((r, s['els']))
+                        apd = self.match_pat(s['pat'], elems, pd)
+                        if apd is not None:
+                            pd = apd
+                        continue
                     o = self.opt(init, pd)
                     if inner is not None and isinstance(o, frozenset):
                         pd = frozenset(o)
@@ -550,10 +560,11 @@ class Presence:
             if k in ('expr', 'semi'):
                 e = s['e']
                 if e.get('k') in ('if', 'match', 'ret'):
-                    # statement-position control flow: only early returns matter
-                    self.stmt_returns(e, pd)
+                    # statement-position control flow: evaluate it like a tail expression; only `return`s inside
+                    # produce recorded results (unit-valued branches are filtered out)
+                    r = self.expr_result(e, pd)
                     # refinement from `if x.is_none() { return None; }`
-                    if e.get('k') == 'if' and diverges(e['then']) and 'else' not in e:
+                    if e.get('k') == 'if' and diverges(e['then']) and 'else' not in e and e['cond'].get('k') != 'letexpr':
                         _, pd = self.refine(e['cond'], pd)
                 continue
         if 'expr' in b:
